@@ -172,7 +172,7 @@ Proof.
 Qed.
 
 (* ---- hinted insert: what happens under the hint node ------------------------------------------------ *)
-Lemma ins_at_spec f rank side k v s t :
+Lemma ins_at_spec f (rank : nat) (side : bool) k v s t :
   (rank < size t)%nat ->
   exists A sub B,
     inorder t = A ++ inorder sub ++ B /\
@@ -223,11 +223,14 @@ Proof.
     cbn [inorder]. keys. rewrite firstn_app, skipn_app, Nat.sub_diag, firstn_all. cbn [firstn].
     rewrite skipn_all2 by lia. replace (S (length (inorder l)) - length (inorder l))%nat with 1%nat by lia.
     cbn [skipn app]. rewrite app_nil_r. reflexivity.
-  - rewrite nth_error_app2 in Hn by lia.
-    replace (rank - length (inorder l))%nat with (S (rank - length (inorder l) - 1)) in Hn by lia.
-    cbn [nth_error] in Hn. cbn [inorder]. rewrite (IHr _ Hn).
-    rewrite firstn_app, skipn_app. rewrite firstn_all2 by lia. rewrite skipn_all2 by lia.
-    replace (rank - length (inorder l))%nat with (S (rank - length (inorder l) - 1)) by lia.
-    replace (S rank - length (inorder l))%nat with (S (S (rank - length (inorder l) - 1))) by lia.
-    cbn [firstn skipn app]. reflexivity.
+  - remember (rank - length (inorder l) - 1)%nat as m eqn:Hm.
+    assert (Hrk : rank = (length (inorder l) + S m)%nat) by lia.
+    rewrite nth_error_app2 in Hn by lia.
+    replace (rank - length (inorder l))%nat with (S m) in Hn by lia.
+    cbn [nth_error] in Hn. cbn [inorder]. rewrite (IHr _ Hn). clear E1 E2 Hm. subst rank.
+    rewrite firstn_app_2.
+    replace (S (length (inorder l) + S m)) with (length (inorder l) + S (S m))%nat by lia.
+    rewrite skipn_app. rewrite (@skipn_all2 _ (length (inorder l) + S (S m))%nat (inorder l)) by lia.
+    replace (length (inorder l) + S (S m) - length (inorder l))%nat with (S (S m)) by lia.
+    cbn [firstn skipn app]. rewrite <- app_assoc. reflexivity.
 Qed.
